@@ -810,7 +810,9 @@ func Run(c *core.Ctx) error {
 			k := 3 + r.Intn(8)
 			items := make([]item, 0, k)
 			for i := 0; i < k; i++ {
-				if i%2 == 0 || r.Intn(3) == 0 {
+				if cas == 0 && i < 2 { // the binding self-test corrupts the kept bytes of this one: a blob, then a scalar
+					items = append(items, genItemN(r, []string{"Blob", "Int"}[i], false, 1+r.Intn(9), 0))
+				} else if i%2 == 0 || r.Intn(3) == 0 {
 					items = append(items, genItemN(r, refOps[r.Intn(len(refOps))], false, 1+r.Intn(9), 0))
 				} else {
 					items = append(items, genItem(r, scalarOps[r.Intn(len(scalarOps))], false))
